@@ -894,6 +894,59 @@ func e1ReaderCase(seed uint64, n int) Case {
 	}}
 }
 
+
+// e1LongLifeCase: ONE cache through tens of thousands of synchronisations (more
+// than a 16-bit counter holds).  At intervals, and densely around the powers
+// of two, an object learnt through an event is left out of the next list and
+// must be gone afterwards; the content is compared with the list every time.
+func e1LongLifeCase(seed uint64, n int) Case {
+	id := fmt.Sprintf("E1/long-lived-cache/%d/%d", seed, n)
+	total := 66200
+	return Case{ID: id, Desc: map[string]interface{}{"syncs": total, "what": "one cache, > 65536 synchronisations"}, Bubble: false, Run: func(r *Res) {
+		ctx, cancel := context.WithCancel(context.Background())
+		c := kcache.VerifNewCache(ctx, kit.NullLog{}, nil, kit.TNull().Build())
+		defer func() { cancel(); <-c.Done() }()
+		lists := [][]metav1.Object{
+			{kit.Pod("ns", "a", "1", nil), kit.Pod("ns", "b", "2", nil)},
+			{kit.Pod("ns", "a", "1", nil)},
+		}
+		refilter := n%2 == 1
+		checked := 0
+		for i := 1; i <= total; i++ {
+			probe := i%4099 == 0 || (i > 65520 && i < 65560) || (i > 32760 && i < 32775) || i < 5
+			if probe {
+				if _, err := c.Update(kcache.NewEvent(kcache.EventTypeCreate, kit.Pod("ns", "ghost", fmt.Sprint(100+i), nil))); err != nil {
+					r.V("C01", "op-error", "%v", err)
+					return
+				}
+			}
+			l := lists[i%2]
+			var err error
+			if refilter && i%3 == 0 {
+				_, err = c.Refilter(l, kit.TNull().Build())
+			} else {
+				_, err = c.Sync(l)
+			}
+			if err != nil {
+				r.V("C01", "op-error", "%v", err)
+				return
+			}
+			if probe {
+				checked++
+				got, _ := cacheSnap(c.Reader())
+				if want := kit.SnapOf(l); !got.Equal(want) {
+					r.V("C01", "content-mismatch", "synchronisation #%d of one cache: the list was %v, the cache now holds %v (an object learnt through an event and absent from the list must be gone)", i, want, got)
+					return
+				}
+			}
+		}
+		r.Evals = int64(total)
+		r.Add("long-lived-syncs", int64(total))
+		r.Add("long-lived-probes", int64(checked))
+		r.Key(id)
+	}}
+}
+
 func init() {
 	register("E1", func(tier string, seed uint64) []Case {
 		var cases []Case
@@ -917,6 +970,9 @@ func init() {
 		}
 		for i := 0; i < tierPick(tier, 16, 800); i++ {
 			cases = append(cases, e1ReaderCase(seed, i))
+		}
+		for i := 0; i < tierPick(tier, 2, 16); i++ {
+			cases = append(cases, e1LongLifeCase(seed, i))
 		}
 		return cases
 	})
